@@ -72,7 +72,7 @@ def cases(rng, tier):
 	yield ('acc', 'Accept', b'application/json;q=0.001, text/html;q=0')
 	yield ('acc', 'Accept', b'a/b;q=abc')
 	yield ('acc', 'Accept-Language', b'de;q=0.5x, en')
-	n = 6000 if tier == 'thorough' else 500
+	n = 6000 if tier == 'thorough' else 1500
 	for _ in range(n):
 		name = rng.choice(NAMES)
 		k = rng.choice((1, 2, 2, 3, 3, 4, 5, 6, 8))
